@@ -42,6 +42,9 @@ type Profile struct {
 	Crashes     bool     // blocks carry restart points (C01)
 	GasSweep    bool     // some txs get a gas limit that runs out at an ante / message boundary
 	MultiPct    int      // percent of txs with several messages (default 10)
+	PRetry      int      // percent of record/purchase operations that retry an earlier rolled-back attempt (same party, same identifier)
+	PForward    int      // percent of follow-up messages after a registration that use that registration (forward reference)
+	PFeePayer   int      // percent of txs with an explicit co-signing fee payer (AuthInfo.Fee.Payer)
 }
 
 // rapid's integer generators are deliberately biased towards small values and
@@ -205,7 +208,7 @@ func GenGenesis(t *rapid.T, p *Profile) lab.GenesisCfg {
 
 func genRef(t *rapid.T, p *Profile) int {
 	if pct(t, p.PBadRef, "badRef") {
-		return pick(t, []int{-1, -2}, "badRefKind")
+		return pick(t, []int{-1, -2, -5, -5}, "badRefKind")
 	}
 	if oneIn(t, 8, "farRef") {
 		// far into a large population (the reference is taken modulo the population)
@@ -257,16 +260,25 @@ func GenOp(t *rapid.T, p *Profile, kind string, nAcc int) Op {
 		}
 	case WrkRec:
 		op.Ref = genRef(t, p)
+		if pct(t, p.PRetry, "retry") {
+			op.Ref = -5
+		}
 		op.Rule = pick(t, []int{0, 0, 0, 0, 0, 0, 1, 2, 3, 3, 4, 5}, "hRule")
 		op.N = pick(t, []uint64{0, 1, 2, 5, 1 << 32, 1 << 63, ^uint64(0) - 1}, "hN")
 		op.Str = strRule(t)
 	case BcnRec:
 		op.Ref = genRef(t, p)
+		if pct(t, p.PRetry, "retry") {
+			op.Ref = -5
+		}
 		op.Rule = uniRange(t, 0, 4, "stRule")
 		op.N = pick(t, []uint64{1, 1700000000, 0, 5, 1 << 63, ^uint64(0)}, "subTime")
 		op.Str = strRule(t)
 	case WrkPur, BcnPur:
 		op.Ref = genRef(t, p)
+		if pct(t, p.PRetry, "retry") {
+			op.Ref = -5
+		}
 		rules := []int{0, 0, 0, 0, 1, 2, 3, 4, 5, 6}
 		if len(p.SlotRules) > 0 {
 			rules = p.SlotRules
@@ -465,6 +477,24 @@ func GenScenario(t *rapid.T, p *Profile) *Scenario {
 			}
 			for j := 0; j < nops; j++ {
 				kind := pickKind(t, p.Weights)
+				if j > 0 && (tx.Ops[0].Kind == WrkReg || tx.Ops[0].Kind == BcnReg) && pct(t, p.PForward, "forwardRef") {
+					// register; then use the registration made earlier in the same transaction (forward reference
+					// to the identifier it will receive) - whether the tx then commits or is rolled back
+					k2 := map[string][]string{WrkReg: {WrkRec, WrkRec, WrkPur}, BcnReg: {BcnRec, BcnRec, BcnPur}}[tx.Ops[0].Kind]
+					op := GenOp(t, p, pick(t, k2, "fwdKind"), nAcc)
+					op.Actor, op.Named, op.Peer, op.Upper = tx.Ops[0].Actor, tx.Ops[0].Named, tx.Ops[0].Peer, tx.Ops[0].Upper
+					op.Ref, op.Rule = -4, 0
+					tx.Ops = append(tx.Ops, op)
+					if j == nops-1 && uni(t, 10, "fwdTail") < 6 {
+						// ... followed by a message of the same module that fails in execution (unknown identifier),
+						// so that everything the transaction did is rolled back
+						tail := GenOp(t, p, op.Kind, nAcc)
+						tail.Actor, tail.Named, tail.Peer, tail.Upper = op.Actor, op.Named, op.Peer, op.Upper
+						tail.Ref = -1
+						tx.Ops = append(tx.Ops, tail)
+					}
+					continue
+				}
 				if j > 0 && pct(t, p.PSameKind, "sameKind") {
 					// the same operation again on the same target by the same party (per-message accumulation paths)
 					op := GenOp(t, p, tx.Ops[0].Kind, nAcc)
@@ -499,6 +529,9 @@ func GenScenario(t *rapid.T, p *Profile) *Scenario {
 				if oneIn(t, 6, "anyGranter") {
 					tx.Granter = 1 + uniRange(t, 0, nAcc-1, "granterIdx")
 				}
+			}
+			if pct(t, p.PFeePayer, "feePayer") {
+				tx.FeePayer = 1 + uniRange(t, 0, nAcc-1, "feePayerIdx")
 			}
 			if pct(t, p.PFault, "fault") {
 				tx.Fault = uniRange(t, 1, 4, "faultKind")
